@@ -16,7 +16,7 @@ from . import rewrite as RW
 
 NAME = "multifile"
 
-MENU = ["int", "hasrepr", "external", "listfix", "update", "ok"]
+MENU = ["int", "hasrepr", "external", "listfix", "update", "ok", "longlist"]
 
 
 def gen(rng, tier, shape=None):
@@ -25,7 +25,11 @@ def gen(rng, tier, shape=None):
         files.append({"stmts": [rng.choice(MENU) for _ in range(rng.randint(1, 2))], "docstring": rng.random() < 0.3,
                       "future": rng.random() < 0.3, "has_import_already": rng.random() < 0.15})
     flags = rng.choice([["create"], ["create", "fix"], ["create", "fix", "update"], ["fix"], ["create", "fix", "trim", "update"]])
-    return {"files": files, "flags": flags, "outside": rng.random() < 0.25}     # outside: pytest is started from another directory
+    ll = rng.choice([None, None, 40, 60])
+    for f in files:
+        f["clean"] = ll is not None and rng.random() < 0.6       # formatter-clean under the project's black options
+    return {"files": files, "flags": flags, "outside": rng.random() < 0.3,      # outside: pytest is started from another directory
+            "line_length": ll}
 
 
 def file_src(f, idx):
@@ -46,6 +50,7 @@ def file_src(f, idx):
                   "external": f"    assert outsource('payload {idx} {k}') == snapshot()",
                   "listfix": "    assert [1, 2, 3] == snapshot([1, 0+2])",
                   "update": "    assert 5 == snapshot(0+5)",
+                  "longlist": f"    assert [1111111111, 2222222222, 33333333{idx}{k}] == snapshot()",
                   "ok": "    assert 7 == snapshot(7)"}[st])
         L.append("")
     return "\n".join(L)
@@ -58,7 +63,14 @@ def model_lines(case):
 def run_impl(case):
     from .. import impl_pytest
     files = {f"test_{chr(97 + i)}.py": file_src(f, i) for i, f in enumerate(case["files"])}
-    r = impl_pytest.run_session(files, ["--inline-snapshot=" + ",".join(case["flags"])], {}, pyproject="",
+    ll = case.get("line_length")
+    if ll:
+        import black
+        for i, f in enumerate(case["files"]):
+            if f.get("clean"):
+                n = f"test_{chr(97 + i)}.py"
+                files[n] = black.format_str(files[n], mode=black.FileMode(line_length=ll))
+    r = impl_pytest.run_session(files, ["--inline-snapshot=" + ",".join(case["flags"])], {}, pyproject=(f"[tool.black]\nline-length = {ll}\n" if ll else ""),
                                 cwd_sub="started_here" if case.get("outside") else None)
     internal = "INTERNALERROR" in r["stdout"]
     return {"rc": r["rc"], "traceback": "Traceback" in r["stderr"] or "Error" in r["stderr"][-400:] or internal,
@@ -89,6 +101,17 @@ def oracle(case, obs):
                 fails.append(("C03", "ast_outside_preserved", f"{name}: syntax tree outside the snapshot() arguments changed"))
         except SyntaxError:
             pass
+        # C20: a file that was formatter-clean under the project's options is formatter-clean afterwards
+        ll = case.get("line_length")
+        if ll:
+            import black
+            mode = black.FileMode(line_length=ll)
+            try:
+                if black.format_str(old, mode=mode) == old and black.format_str(new, mode=mode) != new:
+                    fails.append(("C20", "clean_stays_clean", f"{name} was clean for line-length {ll} (pytest started {'outside' if case.get('outside') else 'inside'} the project) "
+                                  f"and is not clean after the session: {[l for l in new.splitlines() if 'snapshot(' in l][:2]}"))
+            except Exception:  # noqa: BLE001
+                pass
         # imports: only when the generated code needs the name, and once
         args_src = " ".join(ast.unparse(a) for n in ast.walk(tree_new) if isinstance(n, ast.Call) and getattr(n.func, "id", None) == "snapshot" for a in n.args)
         for nm in ("HasRepr", "external"):
@@ -110,7 +133,14 @@ def oracle(case, obs):
                 ins = b"\nfrom inline_snapshot import " + nm + b"\n"
                 while oa.count(ins) > ob.count(ins):
                     oa = oa.replace(ins, b"", 1)
-            if oa != ob and not RW.is_clean(old):
+            clean_here = False
+            if case.get("line_length"):
+                import black as _b
+                try:
+                    clean_here = _b.format_str(old, mode=_b.FileMode(line_length=case["line_length"])) == old
+                except Exception:  # noqa: BLE001
+                    clean_here = False
+            if oa != ob and not RW.is_clean(old) and not clean_here:      # a formatter-clean file is re-formatted as a whole (same AST: clause above)
                 fails.append(("C03", "bytes_outside_preserved", f"{name}: " + RW.first_diff(ob, oa)))
         except Exception as e:  # noqa: BLE001
             fails.append(("C03", "valid_python", f"{name}: cannot locate snapshot calls: {type(e).__name__}"))
